@@ -220,6 +220,10 @@ pub struct World {
 	pub cmds: HashMap<u64, mpsc::UnboundedSender<Cmd>>,
 	pub acks: HashMap<u64, mpsc::UnboundedReceiver<Ack>>,
 	pub sub_ids: HashMap<u64, Value>,
+	/// request id of an unsubscribe call -> the subscribe call it named
+	pub unsub_calls: HashMap<u64, u64>,
+	/// notifications successfully sent per subscribe call
+	pub sent: HashMap<u64, u64>,
 	pub next_id: u64,
 }
 
@@ -233,7 +237,7 @@ impl World {
 		for c in 1..=nconns {
 			conns.insert(c, Conn::open(&rig).await);
 		}
-		World { rig, script, conns, cmds: HashMap::new(), acks: HashMap::new(), sub_ids: HashMap::new(), next_id: 1000 }
+		World { rig, script, conns, cmds: HashMap::new(), acks: HashMap::new(), sub_ids: HashMap::new(), unsub_calls: HashMap::new(), sent: HashMap::new(), next_id: 1000 }
 	}
 
 	async fn ack(&mut self, k: u64) -> Option<Ack> {
@@ -302,13 +306,25 @@ impl World {
 			}
 			"clone" => match self.cmd(k, Cmd::Clone).await { Some(Ack::Ok) => "ok".into(), o => format!("odd-ack:{o:?}") },
 			"dropSink" => match self.cmd(k, Cmd::DropSink).await { Some(Ack::Ok) => "ok".into(), o => format!("odd-ack:{o:?}") },
-			"send" => match self.cmd(k, Cmd::Send(op["n"].as_u64().unwrap_or(0))).await { Some(Ack::Ok) => "ok".into(), Some(Ack::Err) => "err".into(), o => format!("odd-ack:{o:?}") },
+			"send" => {
+				// payloads are numbered 1, 2, .. per subscription, as the spec numbers the notifications it enqueues
+				let n = self.sent.get(&k).cloned().unwrap_or(0) + 1;
+				match self.cmd(k, Cmd::Send(n)).await {
+					Some(Ack::Ok) => {
+						self.sent.insert(k, n);
+						"ok".into()
+					}
+					Some(Ack::Err) => "err".into(),
+					o => format!("odd-ack:{o:?}"),
+				}
+			}
 			"return" => match self.cmd(k, Cmd::Return(op["closing"] == json!(true))).await { Some(Ack::Ok) => "ok".to_string(), o => format!("odd-ack:{o:?}") },
 			"unsub" => {
 				let c = op["c"].as_u64().unwrap();
 				self.next_id += 1;
 				let id = self.next_id;
 				let sid = self.sub_ids.get(&k).cloned().unwrap_or(json!(format!("never-issued-{k}")));
+				self.unsub_calls.insert(id, k);
 				let conn = self.conns.get_mut(&c).unwrap();
 				conn.send(&format!(r#"{{"jsonrpc":"2.0","id":{id},"method":"unsub","params":[{sid}]}}"#)).await;
 				match conn.reply(id).await {
@@ -334,6 +350,61 @@ impl World {
 			}
 		}
 		m
+	}
+
+	/// wait (bounded) until connection c's peer has received `want` frames; frames are moved from the reader's channel to `seen`
+	pub async fn await_frames(&mut self, c: u64, want: usize) {
+		let Some(conn) = self.conns.get_mut(&c) else { return };
+		let deadline = tokio::time::Instant::now() + Duration::from_secs(2);
+		while conn.seen.len() < want {
+			match tokio::time::timeout_at(deadline, conn.frames.recv()).await {
+				Ok(Some(f)) => conn.seen.push(f),
+				_ => break,
+			}
+		}
+	}
+
+	/// Everything connection c's peer has received so far, abstracted to the spec's frame records.  An open connection is
+	/// asked one more call first (its reply travels through the same queue, so everything enqueued before has arrived when
+	/// it does); a closed one is read to its end.
+	pub async fn frames_of(&mut self, c: u64) -> Vec<Value> {
+		let Some(conn) = self.conns.get_mut(&c) else { return vec![] };
+		if conn.open {
+			let id = 777_000 + c;
+			conn.send(&format!(r#"{{"jsonrpc":"2.0","id":{id},"method":"echo","params":[0]}}"#)).await;
+			let _ = conn.reply(id).await;
+		} else {
+			while let Ok(Some(f)) = tokio::time::timeout(WAIT, conn.frames.recv()).await {
+				conn.seen.push(f);
+			}
+		}
+		let mut out = vec![];
+		for f in &conn.seen {
+			let Ok(v) = serde_json::from_str::<Value>(f) else {
+				out.push(json!({"t": "unparseable", "text": f}));
+				continue;
+			};
+			if let Some(id) = v.get("id").and_then(|i| i.as_u64()) {
+				if (101..200).contains(&id) {
+					let k = id - 100;
+					if v.get("result").is_some() { out.push(json!({"t": "resp", "k": k})) } else { out.push(json!({"t": "err", "k": k, "code": v["error"]["code"]})) }
+				} else if let Some(k) = self.unsub_calls.get(&id) {
+					out.push(json!({"t": "unsubResp", "k": k, "v": v["result"]}));
+				}
+				// (marker and probe calls are the harness' own)
+				continue;
+			}
+			let sid = &v["params"]["subscription"];
+			let k = self.sub_ids.iter().find(|(_, s)| *s == sid).map(|(k, _)| json!(k)).unwrap_or(json!(format!("unknown-subscription:{sid}")));
+			if v["method"] != "notif" {
+				out.push(json!({"t": "foreign-method", "method": v["method"], "k": k}));
+			} else if v["params"]["result"].is_u64() {
+				out.push(json!({"t": "notif", "k": k, "n": v["params"]["result"]}));
+			} else {
+				out.push(json!({"t": "close", "k": k}));
+			}
+		}
+		out
 	}
 
 	/// can connection c start one more subscription right now? (a probe subscription that is given up immediately)
@@ -383,14 +454,50 @@ async fn one_case(c: &Value, idx: usize) -> (Vec<(String, Value)>, Value) {
 	w.script.variant.store(idx as u64, std::sync::atomic::Ordering::Relaxed);
 	let mut probs: Vec<(String, Value)> = vec![];
 	let path = c["path"].as_array().unwrap();
+	let wire_mode = c["frames"].as_array().map(|a| !a.is_empty()).unwrap_or(false);
 	let mut log = vec![];
 	for (n, st) in path.iter().enumerate() {
 		let got = w.step(&st["op"], &conn_of).await;
 		log.push(json!({"op": st["op"], "got": got}));
+		if wire_mode {
+			// serialised C04 replay: the next step is taken when every writer has drained (the spec's `Drained`)
+			if let Some(nf) = st["nf"].as_array() {
+				for (ci, n) in nf.iter().enumerate() {
+					w.await_frames(ci as u64 + 1, n.as_u64().unwrap_or(0) as usize).await;
+				}
+			}
+		}
 		let want = st["res"].as_str().unwrap();
 		if got != want {
 			let opn = st["op"]["o"].as_str().unwrap();
 			probs.push((format!("step:{opn}:exp-{want}-got-{}", if got.len() > 24 { "other" } else { got.as_str() }), json!({"case": c, "step": n, "log": log})));
+			return (probs, Value::Null);
+		}
+	}
+	// ---- C04 (serialised): what every peer has received must be exactly what the spec has put on its connection, in order
+	if let Some(exp) = c["frames"].as_array().filter(|a| !a.is_empty()) {
+		for (ci, want) in exp.iter().enumerate() {
+			let cn = ci as u64 + 1;
+			let got = w.frames_of(cn).await;
+			let want: Vec<Value> = want.as_array().cloned().unwrap_or_default();
+			let norm = |v: &Value| -> String {
+				// (field order / absent fields differ between the two sources)
+				format!("{}:{}:{}:{}:{}", v["t"].as_str().unwrap_or("?"), v["k"], v.get("code").unwrap_or(&Value::Null), v.get("n").unwrap_or(&Value::Null), v.get("v").unwrap_or(&Value::Null))
+			};
+			let (g, x): (Vec<String>, Vec<String>) = (got.iter().map(norm).collect(), want.iter().map(norm).collect());
+			if g != x {
+				// name the first difference by kind
+				let i = g.iter().zip(x.iter()).position(|(a, b)| a != b).unwrap_or(g.len().min(x.len()));
+				let kind = match (got.get(i), want.get(i)) {
+					(Some(a), None) => format!("extra-{}", a["t"].as_str().unwrap_or("?")),
+					(None, Some(b)) => format!("missing-{}", b["t"].as_str().unwrap_or("?")),
+					(Some(a), Some(b)) => format!("got-{}-exp-{}", a["t"].as_str().unwrap_or("?"), b["t"].as_str().unwrap_or("?")),
+					_ => "?".into(),
+				};
+				probs.push((format!("wire:{kind}"), json!({"case": c, "conn": cn, "got": got, "want": want, "log": log})));
+			}
+		}
+		if !probs.is_empty() {
 			return (probs, Value::Null);
 		}
 	}
